@@ -24,7 +24,7 @@ type C12MW struct {
 }
 
 type C12Step struct {
-	Kind  string `json:"kind"` // req | req_crash | req_mutating_handler | req_then_scribble_request | dup | scribble_input | scribble_config_result | keep_config_result | scribble_kept | flip_scalars | reconf_again | reconf_other | edit_passed_and_reconfigure
+	Kind  string `json:"kind"` // req | req_crash | req_lazy | req_mutating_handler | req_then_scribble_request | dup | scribble_input | scribble_config_result | keep_config_result | scribble_kept | flip_scalars | reconf_again | reconf_other | edit_passed_and_reconfigure
 	MW    int    `json:"mw"`
 	Req   int    `json:"req,omitempty"`   // index into the middleware's probe suite (mod len)
 	Alien bool   `json:"alien,omitempty"` // take the request from ANOTHER middleware's suite
@@ -57,7 +57,7 @@ func (c12) Assumptions() []string {
 	return []string{
 		"differential oracle: responses and Config() recorded before any fault are the reference",
 		"the response to the request during which the handler scribbles is the handler's own business and is not judged",
-		"an OUTER party scribbling over a finished preflight response (which aliases package-level singletons by design) is outside the property ('wrapped handler') and is not injected",
+		"an OUTER party OVERWRITING elements of a finished preflight response (which aliases package-level singletons by design) is outside the property ('wrapped handler') and is not injected; an outer layer APPENDING to the header lists of any response (http.Header.Add, what a compressing writer does) is ordinary use and is injected (Req.Shape 9)",
 		"Go strings are immutable: mutation means overwriting slice elements (and spare capacity) and map entries",
 	}
 }
@@ -65,10 +65,10 @@ func (c12) Parties() map[string]string {
 	return map[string]string{"cors.Middleware and internals": "real", "adversarial application code (caller of NewMiddleware/Reconfigure/Config, wrapped handler)": "stub (fault injector)", "clients": "stub", "ResponseWriter": "stub (recording)"}
 }
 func (c12) FaultKinds() []string {
-	return []string{"F4_scribble_input_config", "F4_scribble_config_result", "F4_scribble_kept_config_result", "F4_flip_scalars", "F4_handler_scribbles_request_headers", "F4_handler_scribbles_response_headers", "F4_handler_mutates_header_maps", "F4_caller_scribbles_request_after_return", "F4_passed_config_edited_in_place_and_reused", "F6_duplicate_request", "F10_request_crashed_at_a_seam"}
+	return []string{"F4_scribble_input_config", "F4_scribble_config_result", "F4_scribble_kept_config_result", "F4_flip_scalars", "F4_handler_scribbles_request_headers", "F4_handler_scribbles_response_headers", "F4_handler_mutates_header_maps", "F4_caller_scribbles_request_after_return", "F4_passed_config_edited_in_place_and_reused", "F6_duplicate_request", "F10_request_crashed_at_a_seam", "F11_head_serialised_late"}
 }
 func (c12) Probes() []string {
-	return []string{"shared_config_value", "handler_saw_acao_alias", "alien_request", "three_middlewares", "suite_compared", "reconfigure_again_same_config", "reconfigure_to_other_config_vs_fresh"}
+	return []string{"shared_config_value", "handler_saw_acao_alias", "alien_request", "three_middlewares", "suite_compared", "reconfigure_again_same_config", "reconfigure_to_other_config_vs_fresh", "one_element_of_the_passed_config_edited_in_place"}
 }
 
 func (c12) Gen(r *R, tier string) any {
@@ -90,7 +90,7 @@ func (c12) Gen(r *R, tier string) any {
 	if tier == "thorough" && r.P(0.3) {
 		steps = r.Range(40, 90)
 	}
-	kinds := []string{"req", "req", "req_mutating_handler", "req_mutating_handler", "req_then_scribble_request", "dup", "req_crash", "req_crash", "scribble_input", "scribble_config_result", "keep_config_result", "scribble_kept", "flip_scalars", "reconf_again", "reconf_other", "edit_passed_and_reconfigure"}
+	kinds := []string{"req", "req", "req_mutating_handler", "req_mutating_handler", "req_then_scribble_request", "dup", "req_crash", "req_crash", "req_lazy", "req_lazy", "scribble_input", "scribble_config_result", "keep_config_result", "scribble_kept", "flip_scalars", "reconf_again", "reconf_other", "edit_passed_and_reconfigure"}
 	for i := 0; i < steps; i++ {
 		p.Steps = append(p.Steps, C12Step{Kind: pick(r, kinds), MW: r.Intn(k), Req: r.Intn(1 << 16), Alien: r.P(0.2), Val: r.Intn(64)})
 	}
@@ -101,6 +101,39 @@ func (c12) Decode(b []byte) (any, error) {
 	var p C12Plan
 	err := json.Unmarshal(b, &p)
 	return &p, err
+}
+
+// tweakCfg returns c with ONE element of one list replaced by another valid
+// value (v selects the list; 0 = unchanged): the smallest edit a caller makes to
+// a Config it keeps around - same lengths, same scalars, one string differs.
+func tweakCfg(c Cfg, v int) Cfg {
+	d := c.clone()
+	repl := func(l []string, val string) bool {
+		var idx []int
+		for i, x := range l {
+			if x != "*" {
+				idx = append(idx, i)
+			}
+		}
+		if len(idx) == 0 {
+			return false
+		}
+		l[idx[(v/4)%len(idx)]] = val
+		return true
+	}
+	switch v % 4 {
+	case 1:
+		repl(d.Origins, "https://tweaked.example.org")
+	case 2:
+		if !repl(d.Methods, "TWEAKED") {
+			repl(d.Origins, "https://tweaked.example.org")
+		}
+	case 3:
+		if !repl(d.RequestHeaders, "X-Tweaked") {
+			repl(d.Origins, "https://tweaked.example.org")
+		}
+	}
+	return d
 }
 
 const junk = "MUTATED-BY-CALLER"
@@ -141,6 +174,7 @@ type mutHandler struct {
 	invoked  *int
 	crash    *bool
 	crashVal *any
+	quiet    *bool
 }
 
 // crashWriter panics at its at-th call (1-based; 0 = never).
@@ -163,6 +197,11 @@ func (w *crashWriter) Write(b []byte) (int, error) { w.tick(); return w.recWrite
 
 func (h mutHandler) ServeHTTP(w http.ResponseWriter, r *http.Request) {
 	*h.invoked++
+	if h.quiet != nil && *h.quiet {
+		w.Header().Add("Vary", "Accept-Encoding")
+		w.Header().Set("X-Handler", "quiet")
+		return
+	}
 	if h.crash != nil && *h.crash {
 		w.Header().Set("X-Partial", "1")
 		panic(*h.crashVal)
@@ -203,6 +242,7 @@ type c12mw struct {
 	srv      http.Handler
 	invoked  int
 	mutate   bool
+	quiet    bool
 	crashNow bool
 	crashVal any
 	suite    []Req
@@ -210,6 +250,7 @@ type c12mw struct {
 	baseCfg  *cors.Config
 	kept     []*cors.Config
 	cfgIdx   int // configuration currently installed (plan-level knowledge: selects suite and baseline)
+	tw       int // ... in its tweaked variant tw (tweakCfg)
 }
 
 func permOf(seed uint64, salt uint64, n int) []int {
@@ -251,7 +292,7 @@ func (c12) Exec(plan any, c *Ctx) *Violation {
 			return nil
 		}
 		x.m.SetDebug(spec.Debug)
-		x.srv = x.m.Wrap(mutHandler{&x.mutate, c, &x.invoked, &x.crashNow, &x.crashVal})
+		x.srv = x.m.Wrap(mutHandler{&x.mutate, c, &x.invoked, &x.crashNow, &x.crashVal, &x.quiet})
 		x.suite = probeSuite(p.Cfgs[spec.Cfg])
 		x.cfgIdx = spec.Cfg
 		mws[i] = x
@@ -267,7 +308,76 @@ func (c12) Exec(plan any, c *Ctx) *Violation {
 		}
 		x.baseCfg = x.m.Config()
 	}
+	// references for the configurations the history will switch to: recorded NOW, before
+	// any fault and before any history - building them at the moment of the switch would
+	// (a) disturb process-wide state between the fault and its observation and (b) let a
+	// process-wide memo serve the fresh twin the very same wrong answer
+	type ref struct {
+		suite []Req
+		base  []Resp
+		cfg   *cors.Config
+		ok    bool
+	}
+	refs := map[[3]int]*ref{}
+	curIdx := make([]int, len(mws)) // which configuration each middleware will have at each step (known statically)
+	for i, x := range mws {
+		curIdx[i] = x.cfgIdx
+	}
+	for _, st := range p.Steps {
+		if st.Kind != "reconf_other" && st.Kind != "edit_passed_and_reconfigure" {
+			continue
+		}
+		j, dbg, tw := st.Req%len(p.Cfgs), 0, 0
+		if st.Kind == "edit_passed_and_reconfigure" && st.Alien {
+			j = curIdx[st.MW%len(mws)] % len(p.Cfgs)
+		}
+		curIdx[st.MW%len(mws)] = j
+		if p.MWs[st.MW%len(mws)].Debug {
+			dbg = 1
+		}
+		if st.Kind == "edit_passed_and_reconfigure" {
+			tw = st.Val % 4
+		}
+		if refs[[3]int{j, dbg, tw}] != nil {
+			continue
+		}
+		rf := &ref{}
+		refs[[3]int{j, dbg, tw}] = rf
+		target := tweakCfg(p.Cfgs[j], tw)
+		fresh, ferr := cors.NewMiddleware(target.Config())
+		if ferr != nil {
+			continue
+		}
+		fresh.SetDebug(dbg == 1)
+		fi := 0
+		fsrv := fresh.Wrap(constHandler{n: &fi})
+		rf.suite = probeSuite(target)
+		rf.base = make([]Resp, len(rf.suite))
+		for k, q := range rf.suite {
+			rf.base[k] = serveWith(fsrv, q, nil, &fi)
+		}
+		rf.cfg, rf.ok = fresh.Config(), true
+	}
+	refFor := func(j int, debug bool, tw int) *ref {
+		d := 0
+		if debug {
+			d = 1
+		}
+		return refs[[3]int{j, d, tw}]
+	}
+	// responses whose head is still to be serialised (F11): header map, its fingerprint when the middleware returned
+	type pendingResp struct {
+		h    http.Header
+		fp   string
+		what string
+	}
+	var pending []pendingResp
 	check := func(step string, stepNo int) *Violation {
+		defer func() {
+			if len(pending) > 4 {
+				pending = pending[len(pending)-4:]
+			}
+		}()
 		for i, x := range mws {
 			order := permOf(p.Perm, uint64(stepNo*8+i), len(x.suite))
 			for _, j := range order {
@@ -277,6 +387,11 @@ func (c12) Exec(plan any, c *Ctx) *Violation {
 				}
 			}
 			c.hit("suite_compared")
+			for _, pr := range pending {
+				if late := headerFP(pr.h); late != pr.fp {
+					return &Violation{Class: "response-changed-after-return", Key: stepKind(step), Detail: fmt.Sprintf("after %s: the head of the response to %s (handler wrote nothing; serialised when the chain has returned) was %s when the middleware returned and is %s now", step, pr.what, pr.fp, late)}
+				}
+			}
 			if cfg := x.m.Config(); !reflect.DeepEqual(cfg, x.baseCfg) {
 				return &Violation{Class: "config-changed", Key: stepKind(step), Detail: fmt.Sprintf("after %s: middleware %d Config() = %s; before any fault %s", step, i, cfgStr(cfg), cfgStr(x.baseCfg))}
 			}
@@ -312,6 +427,19 @@ func (c12) Exec(plan any, c *Ctx) *Violation {
 				serveWith(x.srv, q, nil, &x.invoked)
 				x.mutate = false
 				last, lastMW = &q, st.MW%len(mws)
+				step += " " + q.String()
+			case "req_lazy":
+				// F11: the wrapped handler sets a header of its own and writes nothing, so the
+				// head of this response is serialised only when the chain has returned -
+				// after whatever the server does next. check() looks at it again.
+				q := x.suite[st.Req%len(x.suite)]
+				w := newRec(nil)
+				x.quiet = true
+				x.srv.ServeHTTP(w, q.build())
+				x.quiet = false
+				pending = append(pending, pendingResp{w.h, headerFP(w.h), q.String()})
+				c.hit("F11_head_serialised_late")
+				c.Nontrivial = true
 				step += " " + q.String()
 			case "req_crash":
 				// F10: the request dies at one of the seams - the k-th call of the
@@ -366,9 +494,13 @@ func (c12) Exec(plan any, c *Ctx) *Violation {
 				// configuration j says, and pass the very same pointer to Reconfigure
 				// again. The result must equal a fresh middleware of configuration j.
 				j := st.Req % len(p.Cfgs)
-				target := p.Cfgs[j].Config()
-				fresh, ferr := cors.NewMiddleware(p.Cfgs[j].Config())
-				if ferr != nil {
+				if st.Alien {
+					j = x.cfgIdx % len(p.Cfgs) // the configuration installed now, with one element changed: the smallest edit
+				}
+				target := tweakCfg(p.Cfgs[j], st.Val%4).Config()
+				dbg := p.MWs[st.MW%len(mws)].Debug
+				rf := refFor(j, dbg, st.Val%4)
+				if rf == nil || !rf.ok {
 					abandon = true
 					return
 				}
@@ -381,19 +513,13 @@ func (c12) Exec(plan any, c *Ctx) *Violation {
 				if err := x.m.Reconfigure(pc); err != nil {
 					panic("a configuration NewMiddleware accepts was rejected by Reconfigure: " + err.Error())
 				}
-				dbg := p.MWs[st.MW%len(mws)].Debug
 				x.m.SetDebug(dbg)
-				fresh.SetDebug(dbg)
-				x.cfgIdx = j
-				x.suite = probeSuite(p.Cfgs[j])
-				fi := 0
-				fsrv := fresh.Wrap(constHandler{&fi})
-				x.base = make([]Resp, len(x.suite))
-				for k, q := range x.suite {
-					x.base[k] = serveWith(fsrv, q, nil, &fi)
-				}
-				x.baseCfg = fresh.Config()
+				x.cfgIdx, x.tw = j, st.Val%4
+				x.suite, x.base, x.baseCfg = rf.suite, rf.base, rf.cfg
 				c.hit("F4_passed_config_edited_in_place_and_reused")
+				if st.Alien && x.tw != 0 {
+					c.hit("one_element_of_the_passed_config_edited_in_place")
+				}
 				c.Nontrivial = true
 			case "reconf_other":
 				// Reconfigure to ANOTHER configuration of the plan: from now on this
@@ -402,31 +528,23 @@ func (c12) Exec(plan any, c *Ctx) *Violation {
 				// (nothing remembered across a reconfiguration)
 				j := st.Req % len(p.Cfgs)
 				cc := p.Cfgs[j].Config()
-				fresh, ferr := cors.NewMiddleware(p.Cfgs[j].Config())
-				if ferr != nil {
+				dbg := p.MWs[st.MW%len(mws)].Debug
+				rf := refFor(j, dbg, 0)
+				if rf == nil || !rf.ok {
 					abandon = true
 					return
 				}
 				if err := x.m.Reconfigure(&cc); err != nil {
 					panic("a configuration NewMiddleware accepts was rejected by Reconfigure: " + err.Error())
 				}
-				dbg := p.MWs[st.MW%len(mws)].Debug
 				x.m.SetDebug(dbg)
-				fresh.SetDebug(dbg)
-				x.passed, x.cfgIdx = &cc, j
-				x.suite = probeSuite(p.Cfgs[j])
-				fi := 0
-				fsrv := fresh.Wrap(constHandler{&fi})
-				x.base = make([]Resp, len(x.suite))
-				for k, q := range x.suite {
-					x.base[k] = serveWith(fsrv, q, nil, &fi)
-				}
-				x.baseCfg = fresh.Config()
+				x.passed, x.cfgIdx, x.tw = &cc, j, 0
+				x.suite, x.base, x.baseCfg = rf.suite, rf.base, rf.cfg
 				c.hit("reconfigure_to_other_config_vs_fresh")
 			case "reconf_again":
 				// Reconfigure with a FRESH copy of the same configuration (the memory passed
 				// earlier may have been scribbled over meanwhile): behaviour must stay put
-				cc := p.Cfgs[x.cfgIdx%len(p.Cfgs)].Config()
+				cc := tweakCfg(p.Cfgs[x.cfgIdx%len(p.Cfgs)], x.tw).Config()
 				if err := x.m.Reconfigure(&cc); err != nil {
 					panic("harness: valid configuration rejected on reconf_again: " + err.Error())
 				}
